@@ -79,6 +79,7 @@ fn main() {
     match driver.as_str() {
         "supply" => drivers::supply::run(&mut ctx),
         "big" => drivers::big::run(&mut ctx),
+        "bigsearch" => drivers::big::run_search(&mut ctx),
         "timeops" => drivers::big::run_time(&mut ctx),
         "suite" => drivers::rta::run_suite(&mut ctx),
         "scale" => drivers::rta::run_scale(&mut ctx),
